@@ -243,10 +243,17 @@ def run_check(prop: str, tier: str = "quick", replay: Optional[str] = None) -> i
         known = load_known()
         known_hits, unlisted = [], []
         seen = set()
+        tainted = repo.tainted() if getattr(repo, "residual_classes", None) else {}
         for f in res.findings:
             if f.key() in seen:
                 continue
             seen.add(f.key())
+            why = tainted.get((f.module, f.function))
+            if why is not None and match_known(f, known) is None:
+                # the function relies on a helper / helper class outside the pinned decomposition that could not be inlined: the rule
+                # has not seen the whole computation, so its report is not a witness
+                res.errors.append(f"{f.module}:{f.line} {f.rule} {f.function}: undecided, the function relies on the helper class `{why}` ({repo.residual[why]}), which is not part of the pinned decomposition and could not be dissolved [{f.construct[:80]}]")
+                continue
             e = match_known(f, known)
             if e is not None:
                 known_hits.append(f.text())
